@@ -1,5 +1,5 @@
 import OtelVerif.Common.Line
-import OtelVerif.Model.C18
+import OtelVerif.Model.C18Src
 /-! driver for C18: models `c18-check` (validate, checker construction, CheckMemLimits histories),
 `c18-rc` (reference-counted start/stop + ticker), `c18-proc` (processor / extension consume) -/
 open OtelVerif OtelVerif.Line OtelVerif.C18
@@ -44,7 +44,7 @@ def checkHandler : Handler CS where
     | "mk" :: t =>
       match s.cfg, kvNat t "total" with
       | some c, some total =>
-        let k := mkChecker c total
+        let k := mkCheckerSrc c total   -- the percentage formula of the source as it is (regenerated)
         ({ s with chk := some k }, [s!"obs chk limit={k.limit} spike={k.spike}"])
       | _, _ => (s, ["obs bad-op"])
     | "check" :: t =>
@@ -183,9 +183,170 @@ def procHandler : Handler PS where
     | [] => ["prop consume=ok"]
     | f :: more => [s!"prop consume=FAIL sig={f} more={more.length}"]
 
+/-! ### construction (`NewMemoryLimiter` with its error path, `NewDefaultConfig`), total memory, the factory's cache -/
+
+def cfgLine (c : Config) : String :=
+  s!"ci={c.checkInterval} gs={c.gcSoft} gh={c.gcHard} lm={c.limitMiB} sm={c.spikeMiB} lp={c.limitPct} sp={c.spikePct}"
+
+def optNat (s : String) : Option (Option Nat) := if s = "err" then some none else s.toNat?.map some
+
+def newHandler : Handler Unit where
+  init := ()
+  onOp := fun s toks =>
+    match toks with
+    | "new" :: t =>
+      match parseCfg t, (kv t "mem").bind optNat with
+      | some c, some mem =>
+        match newLimiterSrc c mem 0 with
+        | none => (s, ["obs new ok=0"])
+        | some l => (s, [s!"obs new ok=1 limit={l.k.limit} spike={l.k.spike} ci={l.checkInterval} gs={l.gcSoft} gh={l.gcHard} refuse={b01 l.st.mustRefuse} lastgcnow=1"])
+      | _, _ => (s, ["obs bad-op"])
+    | ["default"] =>
+      -- the REGENERATED NewDefaultConfig, judged by the model's validate
+      let c := Config.ofGo OtelVerif.Gen.MemLimiter.NewDefaultConfig
+      (s, [s!"obs default {cfgLine c} valid={validate c}"])
+    | _ => (s, ["obs bad-op"])
+  onObs := fun s _ => s
+  onEnd := fun _ => []
+
+def parseQuota (s : String) : Option Quota :=
+  if s = "err" then some none else
+  match s.splitOn ":" with
+  | [q, d] => match q.toInt?, d with
+    | some q, "1" => some (some (q, true))
+    | some q, "0" => some (some (q, false))
+    | _, _ => none
+  | _ => none
+
+structure HS where
+  expect : Option (Option Nat) := none
+  fails : List String := []
+
+def hostHandler : Handler HS where
+  init := {}
+  onOp := fun s toks =>
+    match toks with
+    | "total" :: t =>
+      match (kv t "q").bind parseQuota, (kv t "mi").bind optNat with
+      | some q, some mi =>
+        let r := totalMemory q mi
+        ({ s with expect := some r }, [match r with | none => "obs total err" | some n => s!"obs total {n}"])
+      | _, _ => (s, ["obs bad-op"])
+    | _ => (s, ["obs bad-op"])
+  onObs := fun s toks =>
+    -- the decision of TotalMemory (cgroup error -> error; undefined / "unlimited" quota -> /proc/meminfo; else the quota)
+    match toks, s.expect with
+    | [_, "total", v], some e =>
+      if optNat v = some e then { s with expect := none }
+      else { s with expect := none, fails := s.fails ++ [s!"C18/host/total-memory-decision got={v}"] }
+    | _, _ => s
+  onEnd := fun s =>
+    match s.fails with
+    | [] => ["prop total=ok"]
+    | f :: more => [s!"prop total=FAIL sig={f} more={more.length}"]
+
+structure FS where
+  f : Factory := {}
+  /-- mode of each limiter (by id), set by the last measurement made on it -/
+  modes : List (Nat × Bool) := []
+  -- oracle state (implementation's own observations): key and verdict of the last measurement, key of the last feed,
+  -- the answer each key's processors gave last
+  measured : Option (Nat × Bool) := none
+  feedKey : Option Nat := none
+  seen : List (Nat × Bool) := []
+  fails : List String := []
+
+def FS.mode (s : FS) (id : Nat) : Bool := ((s.modes.find? (·.1 = id)).map (·.2)).getD false
+def FS.lastSeen (s : FS) (k : Nat) : Bool := ((s.seen.find? (·.1 = k)).map (·.2)).getD false
+
+def factoryHandler : Handler FS where
+  init := {}
+  onOp := fun s toks =>
+    match toks with
+    | "create" :: t =>
+      match kvNat t "key", kvBool t "ok" with
+      | some k, some ok =>
+        let (f', r) := s.f.get k ok
+        ({ s with f := f' }, [match r with | some id => s!"obs lim {id}" | none => "obs lim none"])
+      | _, _ => (s, ["obs bad-op"])
+    | "measure" :: t =>
+      match kvNat t "key", kvBool t "refuse" with
+      | some k, some m =>
+        match s.f.lookup k with
+        | some id => ({ s with modes := (id, m) :: s.modes.filter (·.1 != id), measured := some (k, m) }, [])
+        | none => (s, ["obs bad-op"])
+      | _, _ => (s, ["obs bad-op"])
+    | "feed" :: t =>
+      match kvNat t "key" with
+      | some k =>
+        match s.f.lookup k with
+        | some id => ({ s with feedKey := some k }, [s!"obs fed refused={b01 (s.mode id)}"])
+        | none => (s, ["obs bad-op"])
+      | none => (s, ["obs bad-op"])
+    | _ => (s, ["obs bad-op"])
+  onObs := fun s toks =>
+    -- direct oracle, no reference to the cache model: the processors of the key whose limiter was just measured answer with
+    -- that verdict; the processors of every other key answer as they did before (no measurement was made on their limiter)
+    match toks, s.feedKey, s.measured with
+    | [_, "fed", rf], some q, some (k, m) =>
+      match kvBool [rf] "refused" with
+      | some refused =>
+        let f := if q = k then (if refused != m then [s!"C18/factory/processor-ignores-the-measurement-of-its-limiter key={q}"] else [])
+                 else (if refused != s.lastSeen q then [s!"C18/factory/measurement-changed-the-mode-of-another-key key={q} measured={k}"] else [])
+        { s with seen := (q, refused) :: s.seen.filter (·.1 != q), feedKey := none, fails := s.fails ++ f }
+      | none => { s with fails := s.fails ++ ["C18/factory/unparsable"] }
+    | _, _, _ => s
+  onEnd := fun s =>
+    match s.fails with
+    | [] => ["prop factory=ok"]
+    | f :: more => [s!"prop factory=FAIL sig={f} more={more.length}"]
+
+/-! ### cgroup v2: `memoryQuotaV2` on a scripted `memory.max` -/
+
+def parseV2File (s : String) : Option V2File :=
+  if s = "absent" then some .absent else if s = "unreadable" then some .unreadable
+  else (unhex s).map (fun t => .content t.toList)
+
+structure CGS where
+  expect : Option String := none
+  fails : List String := []
+
+def showQuota : Quota → String
+  | none => "err"
+  | some (q, d) => s!"{q}:{b01 d}"
+
+def cgHandler : Handler CGS where
+  init := {}
+  onOp := fun s toks =>
+    match toks with
+    | "quota" :: t =>
+      match (kv t "st").bind parseV2File with
+      | some f => ({ s with expect := some (showQuota (memoryQuotaV2 f)) }, [s!"obs quota {showQuota (memoryQuotaV2 f)}"])
+      | none => (s, ["obs bad-op"])
+    | "quotav1" :: t =>
+      match (kv t "st").bind (fun x => if x = "nosubsys" then some none else (parseV2File x).map some) with
+      | some f => ({ s with expect := some (showQuota (memoryQuotaV1 f)) }, [s!"obs quota {showQuota (memoryQuotaV1 f)}"])
+      | none => (s, ["obs bad-op"])
+    | _ => (s, ["obs bad-op"])
+  onObs := fun s toks =>
+    -- the documented reading of the limit file: absent / max / <= 0 -> not set, a decimal int64 -> that quota, else an error
+    match toks, s.expect with
+    | [_, "quota", v], some e =>
+      if v = e then { s with expect := none }
+      else { s with expect := none, fails := s.fails ++ [s!"C18/cgroup/quota-not-as-the-limit-file-says want={e} got={v}"] }
+    | _, _ => s
+  onEnd := fun s =>
+    match s.fails with
+    | [] => ["prop quota=ok"]
+    | f :: more => [s!"prop quota=FAIL sig={f} more={more.length}"]
+
 end OtelVerif.Drivers.C18
 
 def main : IO UInt32 :=
   runMulti [("c18-check", run OtelVerif.Drivers.C18.checkHandler),
             ("c18-rc", run OtelVerif.Drivers.C18.rcHandler),
-            ("c18-proc", run OtelVerif.Drivers.C18.procHandler)]
+            ("c18-proc", run OtelVerif.Drivers.C18.procHandler),
+            ("c18-new", run OtelVerif.Drivers.C18.newHandler),
+            ("c18-host", run OtelVerif.Drivers.C18.hostHandler),
+            ("c18-factory", run OtelVerif.Drivers.C18.factoryHandler),
+            ("c18-cgv2", run OtelVerif.Drivers.C18.cgHandler)]
